@@ -4,6 +4,7 @@ R14.1 VALIDATE-BEFORE-MUTATE  no write to the receiver reaches a validation thro
 R14.2 OWNED-AT-ONCE           every allocation (new / clone()) is owned before anything can throw
 R14.3 ABANDON-ON-EVERY-CYCLE  every cycle of a loop that holds a maybe_abandon() checkpoint passes one
 R14.4 OBSERVER-THROWS         = R6.4 / R7.3 (cached results handed out only after a successful solve)
+R14.5 TEMPORARY-MARKS         a topology mark put on an object temporarily is undone on every exit, exceptional ones included
 Leak-freedom under the k-th allocation failure deep inside call chains is not decided.
 """
 import os
@@ -536,6 +537,70 @@ def r14_1(ctx):
     ctx.floor(rid, n, 150, "validating public mutators")
 
 
+# (call that changes the state, call that puts it back): a function using both on one object, the second
+# reachable from the first, changes that object temporarily
+TEMP_MARKS = (("mark_as_necessarily_closed", "mark_as_not_necessarily_closed"),)
+
+
+def r14_4(ctx):
+    rid = "R14.5"
+    ctx.rule(rid, "temporary marks are undone on every exit: where a function re-marks the topology of an object (mark_as_necessarily_closed / mark_as_not_necessarily_closed) and, further along, marks it back — the KLUDGE that lets a MIP_Problem read the epsilon dimension of an NNC constraint or constraint system, applied to const arguments and to the receiver's own constraints — (a) every normal path from the first mark reaches the second, and (b) every may-throw event between the two lies in a try block whose catch (...) handler marks the same object back; otherwise an exception (bad_alloc in add_constraints) leaves a const argument with the wrong topology and space dimension")
+    fx = ctx.extract(units_alloc())
+    th = Throwers(fx)
+    n = 0
+    seen = set()
+    for f in fx.functions:
+        if f.flag("pattern") or not f.cfg or (f.relfile, f.line) in seen:
+            continue
+        seen.add((f.relfile, f.line))
+        calls = [c for c in f.calls() if c["k"] == "mcall" and f.call_name(c) in ("mark_as_necessarily_closed", "mark_as_not_necessarily_closed")]
+        if len(calls) < 2:
+            continue
+        for c1 in calls:
+            for a_name, b_name in TEMP_MARKS:
+                if f.call_name(c1) != a_name or f.call_obj(c1) is None:
+                    continue
+                obj = f.text(f.call_obj(c1)).replace(" ", "")
+
+                def is_back(x, b_name=b_name, obj=obj):
+                    return x["k"] == "mcall" and f.call_name(x) == b_name and f.call_obj(x) is not None and f.text(f.call_obj(x)).replace(" ", "") == obj
+                backs = [c for c in calls if is_back(c)]
+                pos = f.cfg_pos(c1)
+                if not backs or pos is None:
+                    continue
+                # temporary only if a marking back is reachable from the mark (ascii_load sets one or the other)
+                ex = flow.Explorer(f, exempt_throw=False, track_env=False)
+                if ex.find_path(pos, lambda x: False, target=is_back) is None:
+                    continue
+                if any(f.within(c1, f.deref(h)) for a in f.walk() if a["k"] == "try" for h in a["c"][1:]):
+                    continue      # the handler's own marking back is not a new temporary change
+                n += 1
+                inst = "%s::%s marks `%s` temporarily (%s)" % (f.clsn or "", f.name, obj, a_name)
+                p = flow.must_follow(f, c1, is_back, track_env=False)
+                if p is not None:
+                    ctx.violation(rid, inst, f.where(c1), "a normal path leaves the function without %s(): %s" % (b_name, flow.render_path(f, p)))
+                    continue
+
+                # is_back is nothrow itself; protected events are those under a restoring catch-all
+
+                def prot(x):
+                    for a in f.ancestors(x):
+                        if a["k"] == "try" and f.within(x, f.deref(a["c"][0])):
+                            for h in a["c"][1:]:
+                                h = f.deref(h)
+                                if h.get("all") and any(is_back(y) for y in f.walk(h)):
+                                    return True
+                    return False
+                bad = ex.find_path(pos, is_back, target=lambda x: x["i"] != c1["i"] and x["k"] in ("call", "mcall", "ocall", "construct", "new", "throw") and not is_back(x) and th.node_may_throw(f, x) and not prot(x))
+                if bad is None:
+                    ctx.ok(rid, inst, f.where(c1))
+                else:
+                    # name the event: last line of the path
+                    last = bad[-1][1][-1] if bad and bad[-1][1] else "?"
+                    ctx.violation(rid, inst, f.where(c1), "between the mark and %s() a step that may throw (line %s) is not inside a try block whose catch (...) marks `%s` back: an exception leaves the object — a const argument or the receiver's constraint system — with the wrong topology" % (b_name, last, obj))
+    ctx.floor(rid, n, 3, "temporary topology marks")
+
+
 def run(ctx):
     ctx.explanation = ("C14 structural clauses: validation precedes mutation, allocations are owned before anything can throw, every cycle of the "
                        "checkpointed loops passes an abandonment checkpoint; decides these ordering/ownership clauses, not leak-freedom for every failing allocation")
@@ -544,6 +609,7 @@ def run(ctx):
     r14_3(ctx)
     r14_2(ctx)
     r14_1(ctx)
+    r14_4(ctx)
 
 
 
